@@ -37,6 +37,13 @@
 //@rule CLOCKPARAM :: Box<dyn Clock \+ 'static> :: ClockBox :: R2
 //@rule PUBCRATENEW :: pub\(crate\) fn new :: pub fn new :: R7
 //@rule TIMEWRITEMUT :: KEEP :: KEEP :: (unused)
+//@rule DROPSENDER :: \n\s*let sender = address\.into\(\)\.0; ::  :: R8 the mailbox sender is only used by the dropped send future
+//@pyrule ASYNCSEND :: abstract_async_block(fut ;; opaque_send_future()) :: R8 the async send future is not expressible in Verus
+//@rule SLOT :: slot::slot\(\) :: slot_pair() :: R7 module path of a stub
+//@rule INTOADDR :: address: impl Into<Address<M>> :: address: A :: R14 impl-Trait argument as a named generic
+//@rule GENERICA4 :: <M, F, T, S>\( :: <M, F, T, S, A: Into<Address<M>>>( :: R14
+//@rule GENERICA5 :: <M, F, T, R, S>\( :: <M, F, T, R, S, A: Into<Address<M>>>( :: R14
+//@rule BADQUERY :: reply_reader\n\s*\.try_read\(\)\n\s*\.map_err\(\|_x\| ExecutionError::BadQuery\) :: bad_query_if_unread(reply_reader\n            .try_read()) :: R16 Result::map_err with a constant closure through a specified stub
 //@rule IMPLDL :: deadline: impl Deadline :: deadline: impl Deadline :: R14 (kept as is)
 //@pyrule GUARD :: inline_guard(scheduler_queue ;; self.scheduler_queue ;; lock_queue(&mut self.scheduler_queue, &self.time); ;; unlock_queue(&mut self.scheduler_queue, &self.time);) :: R1b/R13 the guard variable is the locked queue itself; lock()/drop() become stub calls (functional pass: no interference; monitor pass: havoc)
 //@pyrule PUBFIELDS :: pub_fields() :: R7
@@ -980,6 +987,109 @@ impl Simulation {
     {
         action.spawn_and_forget(&mut self.executor);
         self.run()
+    }
+//@end
+}
+
+// ---------- process_event / process_query: the send future is opaque (R8); what matters is spawn + run ----------
+pub trait Model: Sized {}
+pub trait InputFn<'a, M: Model, T, S>: Send + 'static {}
+pub trait ReplierFn<'a, M: Model, T, R, S>: Send + 'static {}
+#[verifier::external_body]
+#[verifier::reject_recursive_types(M)]
+pub struct Address<M: Model> { x: core::marker::PhantomData<M> }
+// `async move { sender.send(closure).await }`: one task that delivers one message (aid unknown to the contract)
+#[verifier::external_body]
+fn opaque_send_future() -> (f: SeqFuture) ensures f.aids().len() == 1 { unimplemented!() }
+#[verifier::external_body]
+#[verifier::reject_recursive_types(R)]
+pub struct SlotReader<R> { x: core::marker::PhantomData<R> }
+#[verifier::external_body]
+#[verifier::reject_recursive_types(R)]
+pub struct SlotWriter<R> { x: core::marker::PhantomData<R> }
+pub struct ReadError {}
+#[verifier::external_body]
+fn slot_pair<R>() -> (r: (SlotWriter<R>, SlotReader<R>)) { unimplemented!() }
+impl<R> SlotReader<R> {
+    #[verifier::external_body]
+    pub fn try_read(&mut self) -> (r: Result<R, ReadError>) { unimplemented!() }
+}
+
+// `.map_err(|_| ExecutionError::BadQuery)`
+#[verifier::external_body]
+fn bad_query_if_unread<R>(r: Result<R, ReadError>) -> (res: Result<R, ExecutionError>)
+    ensures r is Ok ==> res is Ok, r is Err ==> (res matches Err(ExecutionError::BadQuery))
+{ unimplemented!() }
+
+impl Simulation {
+//@item src=nexosim/src/simulation.rs kind=fn name=process_event within=`impl Simulation` rules=DROPSENDER,ASYNCSEND,INTOADDR,GENERICA4,RET props=C01,C11,C18
+    pub fn process_event<M, F, T, S, A: Into<Address<M>>>(
+        &mut self,
+        func: F,
+        arg: T,
+        address: A,
+    ) -> (res: Result<(), ExecutionError>)
+    where
+        M: Model,
+        F: for<'a> InputFn<'a, M, T, S>,
+        T: Send + Clone + 'static,
+        //@[
+        requires
+            old(self).wf(),
+        ensures
+            final(self).wf(),
+            final(self).time.val() == old(self).time.val(),                                     //@ C01,C11 #process-keeps-time
+            final(self).scheduler_queue.view() == old(self).scheduler_queue.view(),
+            final(self).clock.syncs() == old(self).clock.syncs(),                               //@ C18 #process-no-sync
+            old(self).is_terminated ==> (res matches Err(ExecutionError::Terminated))            //@ C11 #terminated-no-effect
+                && terminated_noop(*old(self), *final(self)),                                   //@ C11 #terminated-no-effect
+            res matches Err(e) ==> final(self).is_terminated && is_fatal(e),                     //@ C11 #error-terminates
+            res is Ok ==> final(self).is_terminated == old(self).is_terminated,                  //@ C11 #ok-keeps-state
+        //@]
+    {
+        let fut = opaque_send_future();
+
+        self.executor.spawn_and_forget(fut);
+        self.run()
+    }
+//@end
+
+//@item src=nexosim/src/simulation.rs kind=fn name=process_query within=`impl Simulation` rules=DROPSENDER,ASYNCSEND,SLOT,INTOADDR,GENERICA5,MAPUNIT,BADQUERY,RET props=C01,C11,C18
+    pub fn process_query<M, F, T, R, S, A: Into<Address<M>>>(
+        &mut self,
+        func: F,
+        arg: T,
+        address: A,
+    ) -> (res: Result<R, ExecutionError>)
+    where
+        M: Model,
+        F: for<'a> ReplierFn<'a, M, T, R, S>,
+        T: Send + Clone + 'static,
+        R: Send + 'static,
+        //@[
+        requires
+            old(self).wf(),
+        ensures
+            final(self).wf(),
+            final(self).time.val() == old(self).time.val(),                                     //@ C01,C11 #process-keeps-time
+            final(self).scheduler_queue.view() == old(self).scheduler_queue.view(),
+            final(self).clock.syncs() == old(self).clock.syncs(),                               //@ C18 #process-no-sync
+            old(self).is_terminated ==> (res matches Err(ExecutionError::Terminated))            //@ C11 #terminated-no-effect
+                && terminated_noop(*old(self), *final(self)),                                   //@ C11 #terminated-no-effect
+            res matches Err(e) && is_fatal(e) ==> final(self).is_terminated,                     //@ C11 #error-terminates
+            // BadQuery is non-fatal: the simulation stays usable
+            res matches Err(e) && !is_fatal(e) ==> final(self).is_terminated == old(self).is_terminated,   //@ C11 #nonfatal-keeps-usable
+            res is Ok ==> final(self).is_terminated == old(self).is_terminated,                  //@ C11 #ok-keeps-state
+        //@]
+    {
+        let (reply_writer, mut reply_reader) = slot_pair();
+        let fut = opaque_send_future();
+
+        self.executor.spawn_and_forget(fut);
+        self.run()?;
+
+        bad_query_if_unread(reply_reader
+            .try_read())
     }
 //@end
 }
